@@ -64,7 +64,9 @@ Definition dispatch (kind : string) (args : list string) : string :=
   else if String.eqb kind "mix" then
     match args with
     | [ops; _] =>
-        if forallb (fun n => match op_of_name n with Some _ => true | None => false end) (split ","%char ops)
+        (* tokens starting with '@' are harness directives (channel pre-filling, no consumer) *)
+        if forallb (fun n => match n with String "@"%char _ => true | _ =>
+                      match op_of_name n with Some _ => true | None => false end end) (split ","%char ops)
         then out3 "ok" "-" "-" else BADARGS
     | _ => BADARGS
     end
